@@ -52,13 +52,27 @@ class RegexTransformerPipeline(BaseTransformerPipeline):
         results: list[Result] | None,
     ) -> ChangeSet | None:
 
-        original_lines = (
-            file_context.file_path.read_bytes()
-            .decode("utf-8")
-            .splitlines(keepends=True)
-        )
+        try:
+            original_lines = (
+                file_context.file_path.read_bytes()
+                .decode("utf-8")
+                .splitlines(keepends=True)
+            )
+        except Exception:
+            file_context.add_failure(
+                file_context.file_path, reason := "Failed to read file"
+            )
+            logger.exception("%s %s", reason, file_context.file_path)
+            return None
 
-        changes, updated_lines = self._apply(original_lines, file_context, results)
+        try:
+            changes, updated_lines = self._apply(original_lines, file_context, results)
+        except Exception:
+            file_context.add_failure(
+                file_context.file_path, reason := "Failed to transform file"
+            )
+            logger.exception("%s %s", reason, file_context.file_path)
+            return None
 
         if not changes:
             logger.debug("No changes produced for %s", file_context.file_path)
